@@ -747,6 +747,12 @@ class SBool:
     def __init__(self, e):
         self.e = e
 
+    def __deepcopy__(self, memo):
+        return self
+
+    def __copy__(self):
+        return self
+
     def __bool__(self):
         return Ctx.cur.branch(self.e)
 
@@ -808,6 +814,12 @@ class SBool:
 class SNum:
     __slots__ = ("e",)
     K = "r"
+
+    def __deepcopy__(self, memo):
+        return self
+
+    def __copy__(self):
+        return self
 
     def _op(self, o, f, res, swap=False, nanres=None):
         """res: 'a' arithmetic (int if both int), 'r' always real, 'b' comparison"""
